@@ -36,6 +36,8 @@ class Containers(object):
             self.cache.clear()
         if kind == 'array-int':
             x = np.array(events, dtype=np.int64).reshape(len(events), C)
+        elif kind == 'array-uint':
+            x = np.array(events, dtype=np.uint16).reshape(len(events), C)
         elif kind == 'array-float':
             x = np.array(events, dtype=np.float64).reshape(len(events), C)
         else:
